@@ -139,6 +139,20 @@ def check_tempfile(rep):
                              {'tempfile': depth})
                     return
                 made.append(p)
+            if depth:
+                # the directory disappears between two calls: it is created again
+                shutil.rmtree(os.path.join(base, 'lvl%d_0' % depth))
+                rep.count('evaluations')
+                rep.nontrivial('tmp-again/%d' % depth)
+                try:
+                    p = fileutils.write_to_tempfile(b'again', path=d)
+                    ok = os.path.isfile(p) and open(p, 'rb').read() == b'again'
+                except Exception as e:
+                    ok, p = False, 'raises ' + type(e).__name__
+                if not ok:
+                    rep.fail('write_to_tempfile-after-directory-removed',
+                             {'depth': depth, 'got': p}, {'tempfile': depth})
+                    return
         # without a directory: default location, still a new file with the content
         p = fileutils.write_to_tempfile(b'xyz')
         rep.count('evaluations')
